@@ -12,6 +12,7 @@ import (
 	"regexp"
 	"strings"
 	"sync"
+	"sync/atomic"
 	"time"
 
 	filehandler "github.com/goblimey/go-ntrip/file_handler"
@@ -754,6 +755,44 @@ func monTime(c *child.Ctx, replay json.RawMessage, anyStart bool) {
 		}
 		wg.Wait()
 		c.Count("histories_run_side_by_side", int64(ng*per))
+		c.EvalN(1)
+	}
+	// handlers being created all the time, each goroutine for a week of its own
+	{
+		ng := 8
+		per := c.Share(c.Pick(160000, 3200000)) / ng
+		var wg sync.WaitGroup
+		var bad atomic.Value
+		for g := 0; g < ng; g++ {
+			wg.Add(1)
+			rg := ref.NewRand(r.Uint64() + uint64(g)*104729)
+			go func(g int) {
+				defer wg.Done()
+				cons := ref.TimedConstellations[g%len(ref.TimedConstellations)]
+				tp := ref.TypesOf(cons)[g%2]
+				T := time.Date(2006+3*g, time.Month(1+g), 3+2*g, 5+g, 0, 0, 0, time.UTC)
+				ws := ref.WeekStartUTC(cons, T)
+				u := ws.Add(time.Duration(1+rg.Intn(600000000)) * time.Millisecond)
+				frame := timeFrame(rg, tp, ref.Timestamp(cons, u))
+				for i := 0; i < per && bad.Load() == nil; i++ {
+					h := handler.New(T, slog.LevelInfo)
+					m, err := h.GetMessage(frame)
+					if m == nil || err != nil {
+						continue
+					}
+					if sent, e := parseReported(m.SentAt, "Time "); e != nil || !sent.Equal(u) {
+						k := timeCase{StartMs: T.UnixMilli(), Zone: "UTC", Msgs: []timeMsg{{Type: tp, TrueMs: u.UnixMilli(), TS: ref.Timestamp(cons, u)}}}
+						cj, _ := json.Marshal(k)
+						bad.Store([2]string{fmt.Sprintf("a handler created with start time %s (while seven other goroutines were creating handlers for other weeks) reports a %s observation of %s as %q", T.Format(time.RFC3339), cons, u.Format(time.RFC3339Nano), m.SentAt), string(cj)})
+					}
+				}
+			}(g)
+		}
+		wg.Wait()
+		if v := bad.Load(); v != nil {
+			c.Violate(sig+"wrong-utc-time", v.([2]string)[0], []byte(v.([2]string)[1]))
+		}
+		c.Count("handlers_created_side_by_side", int64(ng*per))
 		c.EvalN(1)
 	}
 	if anyStart {
